@@ -79,10 +79,10 @@ func init() {
 
 var concRealStub = map[string]string{
 	"queue.SQLiteStore incl. schema, triggers, pooled connection (database/sql), modernc SQLite": "real",
-	"disk":      "simulated (shim VFS: writes pending until sync; kill and power-loss images; crash at a chosen disk operation of the concurrent block)",
-	"scheduler": "simulated: callers are real goroutines parked at a scheduling point before every statement of the instrumented SQLiteStore functions (go/ast overlay) and released one at a time by the seeded choice list; a caller waiting for the pooled connection or a mutex is recognised by its Go wait state and left out until it wakes",
-	"clock":     "simulated, constant during the concurrent block",
-	"reference": "the same store driven sequentially on a fresh database (linearizability with respect to its own sequential behaviour, which W-store judges against the contract model)",
+	"disk":                               "simulated (shim VFS: writes pending until sync; kill and power-loss images; crash at a chosen disk operation of the concurrent block)",
+	"scheduler":                          "simulated: callers are real goroutines parked at a scheduling point before every statement of the instrumented SQLiteStore functions (go/ast overlay) and released one at a time by the seeded choice list; a caller waiting for the pooled connection or a mutex is recognised by its Go wait state and left out until it wakes",
+	"clock":                              "simulated, constant during the concurrent block",
+	"reference":                          "the same store driven sequentially on a fresh database (linearizability with respect to its own sequential behaviour, which W-store judges against the contract model)",
 	"memory backend, HTTP/gRPC handlers": "not in this world",
 }
 
@@ -140,7 +140,7 @@ func init() {
 		"HMAC routes, small nonce pool, arrival times at and around the edges of [ts-tol, ts+tol] (clock on whole-second boundaries so that now == ts+tol is reached), invalid requests carrying the nonce first, config reloads between original and replay; oracle: per (route, nonce, signed timestamp) at most one 202 during the life of the node; two in three programs end with a race: the same signed request sent two or three times at once (or a captured one alongside a new one), interleaved at every statement of ServeHTTP, HMACAuth.Verify and the nonce cache by a seeded choice list: still at most one 202, and the queue gains exactly what the accepted answers stand for", 6000, 120000)
 	regI("C12", IngressProfile{Auth: []string{"none", "none", "basic"}, Rate: true, Limits: true, MaxRoutes: 3, Backends: mem, Fanout: true, Reload: true, Race: true},
 		"ingress part: bodies and header sets around max_body/max_headers (413), arrival-time sequences at route-level and global token-bucket limiters (window characterisation: admitted iff count <= burst + rps x window for every window; 429 otherwise; windows cut at reloads), queue_limits through ingress (503, partial fan-out keeps earlier copies); every refusal leaves the listing unchanged; two in three programs end with a race of concurrent requests at the limiter: those admitted at one instant still fit burst + rps x window", 6000, 120000)
-	regI("C07", IngressProfile{Auth: []string{"none", "basic", "hmac", "forward"}, MaxRoutes: 3, Backends: mem, Fanout: true},
+	regI("C07", IngressProfile{Auth: []string{"none", "basic", "hmac", "forward"}, MaxRoutes: 3, Backends: mem, Fanout: true, Limits: true},
 		"ingress part: accepted requests with bodies containing NUL / 0xFF / invalid UTF-8 / CRLF / empty, header sets with repeated fields in several spellings, credential headers (Authorization, Proxy-Authorization, Cookie) and forward-auth copy_headers; oracle: the stored message (listed with payload and headers straight from the store) carries exactly the received bytes and the documented header map (canonical names, repeated values comma-joined, credentials dropped, copied forward-auth headers added)", 5000, 100000)
 	regI("C17", IngressProfile{Auth: []string{"hmac"}, Rotation: true, MaxRoutes: 2, Backends: mem},
 		"inbound part: secret_ref versions with validity windows (S1 valid until +1h exclusive, S2 valid from +30min inclusive); requests signed with each version at signed timestamps walked across the window boundaries; oracle: accepted iff signed with a version valid at the signed timestamp", 5000, 100000)
